@@ -331,6 +331,11 @@ def check_state_apis(ctx, tree, rng):
   for si, ss in enumerate(subsets):
     variant = si % 2
     d = {}
+    ss = list(ss)
+    if si % 3 == 2:
+      rng.shuffle(ss)  # a State is a mapping: its insertion order must never matter to the set laws
+    elif si % 3 == 1:
+      ss = ss[::-1]
     for p in ss:
       v = want_all[p]
       if variant and hasattr(v, 'replace'):
